@@ -312,6 +312,26 @@ def _decide(args):
     return Verdict(ob, 'unknown', 'z3-5.1', total, (detail or 'incomplete').strip())
 
 
+def _nonlinear_free(forms):
+    """no product / quotient of two non-constant terms: the in-process pre-check is reserved for linear cores (the non-linear
+    solver can run for minutes without looking at its time limit)"""
+    seen = set()
+    st = list(forms)
+    while st:
+        t = st.pop()
+        if t.get_id() in seen:
+            continue
+        seen.add(t.get_id())
+        if z3.is_app(t):
+            k = t.decl().kind()
+            if k in (z3.Z3_OP_MUL, z3.Z3_OP_DIV, z3.Z3_OP_IDIV, z3.Z3_OP_MOD, z3.Z3_OP_POWER):
+                nonconst = [c for c in t.children() if not (z3.is_int_value(c) or z3.is_rational_value(c) or z3.is_algebraic_value(c))]
+                if len(nonconst) >= 2 or (k != z3.Z3_OP_MUL and nonconst and not (z3.is_int_value(t.arg(1)) or z3.is_rational_value(t.arg(1)))):
+                    return False
+            st.extend(t.children())
+    return True
+
+
 def _in_process_last_resort(ob, budget_ms=4000):
     """The SMT-LIB round trip (Solver.to_smt2 + CLI) occasionally yields a harder problem than the in-memory terms (lambda /
     quantifier instantiation order).  An obligation every CLI configuration left open is tried once more on the in-memory
@@ -319,6 +339,7 @@ def _in_process_last_resort(ob, budget_ms=4000):
     for slim in (2, 1, 'pc'):
         try:
             s = build_solver(ob, timeout_ms=budget_ms, slim=slim)
+            s.set('rlimit', 20000000)
             t0 = time.time()
             if s.check() == z3.unsat:
                 return 'z3-5.1/in-process(relevant-hyps-%s)' % slim, time.time() - t0
@@ -356,10 +377,12 @@ def discharge(obligations, timeout_s=10, jobs=16, keep_dir=None):
                 if cf:
                     sc = z3.Solver()
                     sc.set('timeout', 250)
+                    # the wall-clock timeout is not honoured inside some non-linear procedures: a resource limit is
+                    sc.set('rlimit', 400000)
                     for f in cf:
                         sc.add(f)
                     t0 = time.time()
-                    if sc.check() == z3.unsat:
+                    if _nonlinear_free(cf) and sc.check() == z3.unsat:
                         out[k] = Verdict(ob, 'unsat', 'z3-5.1/qf-core(in-process)', time.time() - t0)
                         ob.proved = True
                         continue
